@@ -7,7 +7,7 @@ import lib
 from props import hdrjs
 
 THEOREM = 'C07_names / C07_width_select / C07_header_matches_rows / C07_headerless (Props/C07.v)'
-NAMES = ['id', 'name', 'x1', 'Val', '_u']
+NAMES = ['id', 'name', 'x1', 'Val', '_u', "driver's", 'q"r', 'two words']      # incl. names only a["..."] / a['...'] can spell
 USER_VARS = ['a1c', 'b2b', 'a3_total', 'zz9', 'NRx']
 INIT_PY = '\n'.join('%s = %d' % (v, i + 7) for i, v in enumerate(USER_VARS))
 INIT_JS = ' '.join('var %s = %d;' % (v, i + 7) for i, v in enumerate(USER_VARS))
@@ -24,14 +24,16 @@ def gen_item(r, cx, lang_pair=True):
         i = r.randint(0, n - 1 + (1 if r.random() < 0.1 else 0))
         txt = '%s%d' % (t, i + 1) if r.random() < 0.6 else '%s[%d]' % (t, i + 1)
         return '(0 %d %d)' % (tn, i), txt, txt
-    if x < 0.3 and hdr:
-        nm = r.choice(hdr)
+    idents = [n for n in (hdr or []) if n.replace('_', 'a').isalnum()]
+    if x < 0.3 and idents:
+        nm = r.choice(idents)
         txt = '%s.%s' % (t, nm)
         return '(1 %d %s)' % (tn, lib.enc(nm)), txt, txt
     if x < 0.4 and hdr:
         nm = r.choice(hdr)
         q = r.choice(['"', "'"])
-        txt = '%s[%s%s%s]' % (t, q, nm, q)
+        esc = nm.replace('\\', '\\\\').replace(q, '\\' + q)          # the name as a string literal of either language
+        txt = '%s[%s%s%s]' % (t, q, esc, q)
         return '(2 %d %s)' % (tn, lib.enc(nm)), txt, txt
     if x < 0.48:
         # bare variables: NR / NF and identifiers defined by the user's init code, some of which only LOOK like aN / bN at the start
@@ -73,7 +75,7 @@ def gen_case0(r):
     nb = 2 if join else 0
     hdrB = (['k', 'w'] if with_hdr else None) if join else None
     A = [[r.choice(['1', '2', 'k']) for _ in range(na)] for _ in range(r.randint(1, 3))]
-    B = [[r.choice(['1', '2', 'k']), 'w%d' % i] for i in range(r.randint(1, 3))] if join else None
+    B = [[r.choice(['1', '2', 'k', 'zz']), 'w%d' % i] for i in range(r.randint(1, 3))] if join else None
     shape = r.random()
     agg = shape < 0.15 and not join
     cx = {'na': na, 'nb': nb, 'hdrA': hdrA, 'hdrB': hdrB, 'agg': agg}
@@ -82,7 +84,9 @@ def gen_case0(r):
     pre = ''
     tail = ''
     if join:
-        tail += ' join b on a1 == b1'
+        # inner and LEFT joins: an unmatched record of a LEFT JOIN gets a null B record as wide as the B table, so star items
+        # still fill every header column
+        tail += r.choice([' join b on a1 == b1', ' left join b on a1 == b1', ' left outer join b on a1 == b1'])
     if shape < 0.15:
         pass
     elif shape < 0.3:
